@@ -20,7 +20,7 @@ func TestVerif(t *testing.T) {
 	driver.Main(t, driver.Harness{
 		ID:    "C02",
 		Level: "model_checking",
-		Rule: "scenario = curated DAG shape x Concurrency x API (CopyGraph, Copy, ExtendedCopyGraph; for shapes with two or more referrers also ExtendedCopyGraph with FilterAnnotation and with FilterArtifactType, whose manifest reads are fault points too) x pre-population; choice tree = goroutine schedules x fault answers " +
+		Rule: "scenario = curated DAG shape x Concurrency x API (CopyGraph, Copy, ExtendedCopyGraph; CopyGraph into a destination that can mount (mounted / copied after all is an input choice; candidate lists: two, one twice, one and a blank); for shapes with two or more referrers also ExtendedCopyGraph with FilterAnnotation and with FilterArtifactType, whose manifest reads are fault points too) x pre-population; choice tree = goroutine schedules x fault answers " +
 			"(normal | error before effect (a failed source Fetch also matches errdef.ErrNotFound: the source no longer has the content) | cancel context | error after effect (Push)) at every Fetch/Exists/Push/Predecessors/callback invocation, enumerated within " +
 			"the bound vector (F faults, D schedule deviations). Monitor: link-closure at every completed destination Push; oracle: faulted or cancelled call returns non-nil, " +
 			"no deadlock/livelock, fault-free retry on the same destination completes the graph. non-trivial = execution with at least one injected fault",
@@ -59,6 +59,10 @@ func jobs(tier string) []driver.Job {
 			}
 		}
 		apis := []string{"graph", "copy", "ext"}
+		if d.Name == "diamond" || d.Name == "dup-layer" {
+			// destination with registry.Mounter: MountFrom offers two candidates / one twice / one and a blank
+			apis = append(apis, "graph-mount2", "graph-mount3", "graph-mount4")
+		}
 		if nref >= 2 {
 			// predecessor filters read the referrers' manifests from the source: more needed source reads
 			apis = append(apis, "ext-fann", "ext-ftype")
@@ -90,7 +94,7 @@ func jobs(tier string) []driver.Job {
 					if conc == 3 && len(prep) > 0 {
 						continue
 					}
-					if strings.HasPrefix(api, "ext-") && conc != 2 {
+					if (strings.HasPrefix(api, "ext-") || strings.HasPrefix(api, "graph-mount")) && (conc != 2 || len(prep) > 0) {
 						continue
 					}
 					s := scen{d: d, start: start, prepop: prep, conc: conc, api: api}
@@ -141,7 +145,13 @@ func mkJob(s scen, b explore.Bounds, nsh int) []driver.Job {
 func (s scen) call(ctx context.Context, w *World, srcM, dstM *memory.Store, faults bool) error {
 	d := s.d
 	src := &SrcTarget{Src: Src{W: w, Inner: srcM}, R: srcM, P: srcM}
-	dst := &Dst{W: w, Inner: dstM}
+	var dst oras.Target = &Dst{W: w, Inner: dstM}
+	var mountEvents []string
+	mountK := -1
+	if strings.HasPrefix(s.api, "graph-mount") {
+		mountK = int(s.api[len("graph-mount")] - '0')
+		dst = &MountDst{Dst: Dst{W: w, Inner: dstM}, Mounted: map[int]int{}, Events: &mountEvents}
+	}
 	cb := func(kind string) func(context.Context, ocispec.Descriptor) error {
 		return func(_ context.Context, desc ocispec.Descriptor) error {
 			nm := "?"
@@ -171,6 +181,13 @@ func (s scen) call(ctx context.Context, w *World, srcM, dstM *memory.Store, faul
 	}
 	opts := oras.CopyGraphOptions{Concurrency: s.conc, PreCopy: cb("pre"), PostCopy: cb("post"), OnCopySkipped: cb("skip")}
 	desc := d.Nodes[s.start].Desc
+	if mountK >= 0 {
+		opts.MountFrom = func(ctx context.Context, desc ocispec.Descriptor) ([]string, error) {
+			return MountCandidates[mountK], nil
+		}
+		opts.OnMounted = cb("mounted")
+		return oras.CopyGraph(ctx, src, dst, desc, opts)
+	}
 	switch s.api {
 	case "graph":
 		return oras.CopyGraph(ctx, src, dst, desc, opts)
